@@ -501,3 +501,49 @@ def v8(ctx):
                           "Calendar.from_ical is given text (`%s`): the installed parser treats a str without line breaks as a path and "
                           "parses that file, so a body that is not calendar data at all is accepted and stored" % (texty[0] if texty else "")))
     return obs
+
+
+@rule("C14", "V9", floor=3, kind="S",
+      desc="describing a change does not change what is stored: the commit-message helpers (describe_calendar_delta, "
+           "calendar_component_delta, calendar_prop_delta) only read the parsed calendars - no in-place sort / append / "
+           "assignment on anything reached from their arguments (the same object is serialised by normalized() next)")
+def v9(ctx):
+    MUT = {"sort", "reverse", "append", "extend", "insert", "remove", "pop", "clear", "update", "add", "discard", "popitem", "setdefault", "__setitem__", "__delitem__"}
+    obs = []
+    from ..dataflow import depends_on
+    for q in ("describe_calendar_delta", "calendar_component_delta", "calendar_prop_delta"):
+        f = ctx.func("xandikos.icalendar." + q)
+        cfg = ctx.cfg(f)
+        du = DefUse(cfg)
+        params = set(f.params)
+        bad = []
+        # locals that are fresh containers built here may be mutated; everything that stems from a parameter may not
+        fresh = set()
+        for d_ in du.all_defs:
+            if d_.kind == "assign" and isinstance(d_.value, (ast.List, ast.Dict, ast.Set, ast.ListComp, ast.DictComp, ast.SetComp)) \
+                    or (d_.kind == "assign" and isinstance(d_.value, ast.Call) and dotted(d_.value.func) in ("list", "dict", "set", "sorted")):
+                fresh.add(d_.name)
+        for n in cfg.stmt_nodes():
+            for c in n.calls():
+                if isinstance(c.func, ast.Attribute) and c.func.attr in MUT and isinstance(c.func.value, (ast.Name, ast.Attribute, ast.Subscript)):
+                    base = c.func.value
+                    root = base
+                    while isinstance(root, (ast.Attribute, ast.Subscript)):
+                        root = root.value
+                    if isinstance(root, ast.Name) and root.id in fresh and isinstance(base, ast.Name):
+                        continue
+                    if params & depends_on(du, n, base):
+                        bad.append((n, src(c)[:50]))
+            if n.kind == "stmt" and isinstance(n.ast, (ast.Assign, ast.AugAssign, ast.Delete)):
+                for t in (n.ast.targets if not isinstance(n.ast, ast.AugAssign) else [n.ast.target]):
+                    if isinstance(t, (ast.Subscript, ast.Attribute)) and params & depends_on(du, n, t.value):
+                        root = t.value
+                        while isinstance(root, (ast.Attribute, ast.Subscript)):
+                            root = root.value
+                        if isinstance(root, ast.Name) and root.id in fresh:
+                            continue
+                        bad.append((n, src(n.ast)[:50]))
+        obs.append(ctx.ob(not bad, f.qualname, where(f, bad[0][0]) if bad else f.where, "%s only reads its arguments" % q, "no in-place mutation",
+                          "%s modifies the calendar it is given (`%s`): the object that is serialised and stored next is not the one that was "
+                          "uploaded - re-uploading what GET serves gives different bytes" % (q, bad[0][1] if bad else "")))
+    return obs
